@@ -11,6 +11,8 @@ import RV.Base.Proto
     len | iter | get i | index x | contains x      -> value | <error>
     foreign lo hi              -> ok      (subjects lo..hi are foreign: excluded from the footprint of `snap`)
     second h2                  -> L2=<list(Collection(g, h2))> N2=<len> F2=<the triples with a foreign subject>
+    term k I|B|P cps           -> ok      (member k is the IRI / blank node / plain literal with these code points)
+    term k T|G cps cps         -> ok      (typed literal lex + datatype IRI / language-tagged literal lex + tag)
     ext                        -> IT=<list(g.items(head))> N3=<c.n3() with member k written <k>>
     snap lo hi m…              -> L=<iter> N=<len> G=<c[lo]>;…;<c[hi]> I=<index m>;… C=<m in c>;… F=<status>,<#list triples> X=<other triples>
 -/
@@ -22,6 +24,14 @@ structure D where
   /-- subjects in this range are *foreign* (another collection's private cells, junk): left out of the footprint -/
   flo : Nat := 1
   fhi : Nat := 0
+  /-- the rdflib terms of the members (harness-owned table), for the real text of `n3()` -/
+  tbl : List (Nat × RTerm) := []
+
+def D.term? (d : D) (k : Nat) : Option RTerm := (d.tbl.find? (fun e => e.1 == k)).map (·.2)
+
+/-- a string crossing the protocol: code points joined by `,`, `-` for the empty string -/
+def cps? (w : String) : Option (List Char) :=
+  if w == "-" then some [] else (w.splitOn ",").mapM (fun x => x.toNat?.map Char.ofNat)
 
 def D.isForeign (d : D) (t : Triple) : Bool := d.flo ≤ t.1 && t.1 ≤ d.fhi
 
@@ -83,8 +93,26 @@ def mutD (d : D) (op : Op) : D × String :=
 def stepD (d : D) : List String → D × String
   | ["reset", h] =>
     match h.toNat? with
-    | some h => (⟨⟨[], 1000⟩, h, 1, 0⟩, "ok")
+    | some h => (⟨⟨[], 1000⟩, h, 1, 0, []⟩, "ok")
     | none => (d, "bad-op")
+  | ["term", k, kind, a] =>
+    match k.toNat?, cps? a with
+    | some k, some a =>
+      let t? : Option RTerm := if kind == "I" then some (.iri a) else if kind == "B" then some (.bnode a)
+        else if kind == "P" then some (.lit a none none) else none
+      match t? with
+      | some t => ({ d with tbl := (k, t) :: d.tbl }, "ok")
+      | none => (d, "bad-op")
+    | _, _ => (d, "bad-op")
+  | ["term", k, kind, a, b] =>
+    match k.toNat?, cps? a, cps? b with
+    | some k, some a, some b =>
+      let t? : Option RTerm := if kind == "T" then some (.lit a (some b) none)
+        else if kind == "G" then some (.lit a none (some b)) else none
+      match t? with
+      | some t => ({ d with tbl := (k, t) :: d.tbl }, "ok")
+      | none => (d, "bad-op")
+    | _, _, _ => (d, "bad-op")
   | ["foreign", lo, hi] =>
     match lo.toNat?, hi.toNat? with
     | some lo, some hi => ({ d with flo := lo, fhi := hi }, "ok")
@@ -95,7 +123,8 @@ def stepD (d : D) : List String → D × String
     | some h2 =>
       let ft := (d.s.g.filter d.isForeign).map (fun t => [t.1, t.2.1, t.2.2])
       let xs := (sortBy lexLt ft).map (fun t => ".".intercalate (t.map toString))
-      (d, s!"L2={showOut (step h2 d.s .iter).2} N2={showOut (step h2 d.s .len).2} F2=" ++
+      (d, s!"L2={showOut (step h2 d.s .iter).2} N2={showOut (step h2 d.s .len).2} " ++
+            s!"G2={showOut (step h2 d.s (.getItem 0)).2};{showOut (step h2 d.s (.getItem (-1))).2} F2=" ++
             (if xs.isEmpty then "-" else ";".intercalate xs))
     | none => (d, "bad-op")
   | ["t", a, b, c] =>
@@ -152,10 +181,20 @@ def stepD (d : D) : List String → D × String
     | _, _, _ => (d, "bad-op")
   | ["ext"] =>
     -- Graph.items(head) called directly, and Collection.n3() with member k written `<k>`
-    let t := match n3 (fun k => ('<' :: (toString k).toList) ++ ['>']) d.s.g d.h with
+    let tok := fun k => match d.term? k with
+      | some t => tokR t
+      | none => ('<' :: (toString k).toList) ++ ['>']
+    let t := match n3 tok d.s.g d.h with
       | .ok cs => String.ofList cs
       | .error e => showErr e
-    (d, s!"IT={rd d .iter} N3={t}")
+    -- the model's own reader on the model's text: must give back the members' terms
+    let rb := match iter d.s.g d.h, n3 tok d.s.g d.h with
+      | .ok xs, .ok cs =>
+        match xs.mapM d.term? with
+        | some ts => if readN3 lexR cs == some ts then "ok" else "FAIL"
+        | none => "ok"
+      | _, _ => "ok"
+    (d, s!"IT={rd d .iter} RB={rb} N3={t}")
   | _ => (d, "bad-op")
 
-def main : IO Unit := RV.Proto.run stepD (⟨⟨[], 1000⟩, 100, 1, 0⟩ : D)
+def main : IO Unit := RV.Proto.run stepD (⟨⟨[], 1000⟩, 100, 1, 0, []⟩ : D)
